@@ -42,7 +42,7 @@ func (y *sys) useCoordinator(rng *rand.Rand) {
 // viaCoordinator: can this Schedule move be expressed through the coordinator with the same effective lastScheduled?
 // ("every" tasks are aligned to the interval by NewSchedule, so only aligned values survive unchanged)
 func (y *sys) viaCoordinator(k string, e, last int) bool {
-	return y.co != nil && (k != "every" || last%e == 0)
+	return y.co != nil && (k != "every" || last%e == 0) // ("unit" tasks are always scheduled from the aligned time)
 }
 
 func (y *sys) coordSchedule(id int, k string, e, o, end, last int) {
@@ -51,6 +51,8 @@ func (y *sys) coordSchedule(id int, k string, e, o, end, last int) {
 		CreatedAt: base.Add(-time.Hour)}
 	if k == "every" {
 		to.Every = fmt.Sprintf("%ds", e)
+	} else if k == "unit" {
+		to.Every = unitName[e]
 	} else {
 		to.Cron = schedString(k, e, end)
 	}
@@ -71,7 +73,7 @@ func (y *sys) coordSchedule(id int, k string, e, o, end, last int) {
 	y.t.Event("Call", rt.M{"t": "S", "id": id, "k": k, "e": e, "o": o, "end": end, "via": "coord", "lc": lc, "ls": ls})
 	var rerr error
 	from := co.tasks[id]
-	y.within("TaskCreated/TaskUpdated", func() {
+	extra := y.apiCall("TaskCreated/TaskUpdated", func() {
 		if from == nil {
 			rerr = co.c.TaskCreated(context.Background(), to)
 		} else {
@@ -82,7 +84,7 @@ func (y *sys) coordSchedule(id int, k string, e, o, end, last int) {
 		co.tasks[id] = to
 		co.sched[id] = true
 	}
-	y.t.Event("Ret", rt.M{"err": errStr(rerr)})
+	y.ret(rerr, extra)
 	y.kick()
 }
 
@@ -106,7 +108,7 @@ func (y *sys) coordRelease(id int) {
 	co.sched[id] = false
 	y.t.Event("Call", rt.M{"t": "R", "id": id, "via": "coord", "how": how})
 	var rerr error
-	y.within("coordinator call", func() {
+	extra := y.apiCall("TaskUpdated/TaskCreated/TaskDeleted", func() {
 		switch how {
 		case "inactive", "update-inactive":
 			to := *from
@@ -124,6 +126,6 @@ func (y *sys) coordRelease(id int) {
 			delete(co.tasks, id)
 		}
 	})
-	y.t.Event("Ret", rt.M{"err": errStr(rerr)})
+	y.ret(rerr, extra)
 	y.kick()
 }
